@@ -99,6 +99,9 @@ var targets = []target{
 	{"pkg/socketcan", "frame.decodeFrame"},
 	{"pkg/socketcan", "frame.marshalBinary"},
 	{"pkg/socketcan", "frame.unmarshalBinary"},
+	{"pkg/dbc", "MessageID.IsExtended"},
+	{"pkg/dbc", "MessageID.ToCAN"},
+	{"pkg/dbc", "MessageID.Validate"},
 }
 
 const modPath = "go.einride.tech/can"
